@@ -320,40 +320,164 @@ def _impl_chunks(case):
     return {"r": ["ok", texts]}
 
 
-def impl_run(case):
-    if case.get("k") in ("fit", "resize"):
-        return _impl_chunks(case)
+def _build_table(case, enums=None):
+    """PPTable(...) of a table description.  enums: {enum_id: PPEnumFieldType}; fields that carry the same
+    "enum_id" (in this or in another table of a history) get the very same field type object"""
     from ak.ppobj import PPTable, PPEnumFieldType
     fields = case["fields"]
-    missing_len = len(str(PPEnumFieldType.MISSING))
-    try:
-        ftypes = {}
-        ftitles = {}
-        for f in fields:
-            if f.get("enum") is not None:
+    ftypes = {}
+    ftitles = {}
+    for f in fields:
+        if f.get("enum") is not None:
+            eid = f.get("enum_id")
+            ft = enums.get(eid) if (enums is not None and eid is not None) else None
+            if ft is None:
                 ev = {}
                 for k, name, syn in f["enum"]["keys"]:
                     ev[dec(k)] = name if syn is None else (name, syn)
                 if f["enum"].get("missing") is not None:
                     ev[PPEnumFieldType.MISSING] = tuple(f["enum"]["missing"])
-                ftypes[f["name"]] = PPEnumFieldType(ev)
-            if f.get("title") is not None:
-                ftitles[f["name"]] = title_arg(f["title"])
-        records = [tuple(dec(v) for v in r) for r in case["records"]]
-        kw = {}
-        if case.get("skip"):
-            kw["skip_columns"] = [fields[i]["name"] for i in case["skip"]]
-        al = case.get("arg_limits")
-        table = PPTable(records, fields=[f["name"] for f in fields], fmt=make_fmt(case),
-                        fields_types=ftypes or None, fields_titles=ftitles or None,
-                        header=case.get("header"), footer=case.get("footer"),
-                        limits=tuple(al) if al is not None else None, **kw)
-        text = table.ch_text(no_color=True).plain_text()
+                ft = PPEnumFieldType(ev)
+                if enums is not None and eid is not None:
+                    enums[eid] = ft
+            ftypes[f["name"]] = ft
+        if f.get("title") is not None:
+            ftitles[f["name"]] = title_arg(f["title"])
+    records = [tuple(dec(v) for v in r) for r in case["records"]]
+    kw = {}
+    if case.get("skip"):
+        kw["skip_columns"] = [fields[i]["name"] for i in case["skip"]]
+    al = case.get("arg_limits")
+    return PPTable(records, fields=[f["name"] for f in fields], fmt=make_fmt(case),
+                   fields_types=ftypes or None, fields_titles=ftitles or None,
+                   header=case.get("header"), footer=case.get("footer"),
+                   limits=tuple(al) if al is not None else None, **kw)
+
+
+def _whole_text(table, mode):
+    """what print shows: str() of the no-colour rendering ("nc"); for the coloured rendering ("c") the
+    printed text with the colour sequences taken out (colours themselves are not C12's subject)"""
+    from ak.color import CHText
+    if mode == "c":
+        return CHText.strip_colors(str(table))
+    return str(table.ch_text(no_color=True))
+
+
+def impl_run(case):
+    if case.get("k") in ("fit", "resize"):
+        return _impl_chunks(case)
+    if case.get("k") == "hist":
+        return _impl_hist(case)
+    from ak.ppobj import PPEnumFieldType
+    missing_len = len(str(PPEnumFieldType.MISSING))
+    try:
+        table = _build_table(case)
+        text = _whole_text(table, "nc")
     except Exception as e:  # noqa
         return {"r": ["err", SX.exc_name(e)], "missing_len": missing_len}
     if not isinstance(text, str):
         return {"r": ["err", "NotAString"], "missing_len": missing_len}
     return {"r": ["ok", text.split("\n")], "missing_len": missing_len}
+
+
+DRAIN = 2000        # ["next", g, DRAIN]: read iterator g to its end (no generated table has that many lines)
+
+
+def setfmt_string(t, cs, ls):
+    """the fmt string of ["setfmt", i, cs, ls] for table description t"""
+    if cs == "keep":
+        part = ""
+    elif cs == "*":
+        part = "*"
+    else:
+        part = make_fmt({"fields": t["fields"], "cols": cs, "fmt_limits": None})
+    if ls is None:
+        return part
+    if ls == "*":
+        return part + ";*"
+    return part + f";{ls[0]}:{ls[1]}"
+
+
+def _impl_hist(case):
+    """a history: constructor calls, then the operations; one event per call:
+    ["ok", lines] (no lines for calls that return nothing) or ["err", exception class]"""
+    from ak.ppobj import PPTable, PPEnumFieldType
+    from ak.color import CHText
+    missing_len = len(str(PPEnumFieldType.MISSING))
+    enums = {}
+    tables = []
+    descr = []            # the description each table was built from (field names for fmt strings)
+    ev = []
+    for t in case["tables"]:
+        try:
+            tables.append(_build_table(t, enums))
+            ev.append(["ok", []])
+        except Exception as e:  # noqa
+            tables.append(None)
+            ev.append(["err", SX.exc_name(e)])
+        descr.append(t)
+    gens = []
+    kept = []             # (event, position, line object, mode, text when it was yielded)
+
+    def line_text(line, mode):
+        text = str(CHText(line))
+        return CHText.strip_colors(text) if mode == "c" else text
+
+    for op in case["ops"]:
+        k = op[0]
+        if k not in ("str", "open", "next", "setfmt", "rmcols", "clone"):
+            raise RuntimeError(f"unknown operation {op!r}")
+        try:
+            if k == "str":
+                text = _whole_text(tables[op[1]], op[2])
+                ev.append(["ok", text.split("\n")] if isinstance(text, str) else ["err", "NotAString"])
+            elif k == "open":
+                res = tables[op[1]].ch_text() if op[2] == "c" else tables[op[1]].ch_text(no_color=True)
+                gens.append((iter(res), op[2]))
+                ev.append(["ok", []])
+            elif k == "next":
+                it, mode = gens[op[1]]
+                raw = []
+                for _ in range(op[2]):
+                    try:
+                        raw.append(next(it))
+                    except StopIteration:
+                        break
+                # the lines are values the caller may keep (zip of two tables, list(t.ch_text())): they are read
+                # after the whole batch has been fetched and once more at the end of the history
+                lines = [line_text(line, mode) for line in raw]
+                for j, line in enumerate(raw):
+                    kept.append((len(ev), j, line, mode, lines[j]))
+                ev.append(["ok", lines])
+            elif k == "setfmt":
+                tables[op[1]].set_fmt(setfmt_string(descr[op[1]], op[2], op[3]))
+                ev.append(["ok", []])
+            elif k == "rmcols":
+                tables[op[1]].remove_columns([descr[op[1]]["fields"][i]["name"] for i in op[2]])
+                ev.append(["ok", []])
+            elif k == "clone":
+                src = tables[op[1]]
+                lim = op[5]
+                tables.append(PPTable([tuple(dec(v) for v in r) for r in op[2]], fmt_obj=src.fmt,
+                                      header=op[3], footer=op[4], limits=tuple(lim) if lim is not None else None))
+                descr.append(descr[op[1]])
+                ev.append(["ok", []])
+        except Exception as e:  # noqa
+            ev.append(["err", SX.exc_name(e)])
+            if op[0] == "clone":
+                tables.append(None)
+                descr.append(descr[op[1]])
+    changed = 0
+    for e, j, line, mode, text in kept:
+        try:
+            now = line_text(line, mode)
+        except Exception as exc:  # noqa
+            now = "<" + SX.exc_name(exc) + ">"
+        if now != text:
+            changed += 1
+            if ev[e][0] == "ok":
+                ev[e][1][j] = now
+    return {"ev": ev, "missing_len": missing_len, "lines_changed_later": changed}
 
 
 # ------------------------------------------------------------------ model side
@@ -365,16 +489,34 @@ def _chunks_term(texts):
     return SX.clist(SX.cstr(t) for t in texts) if texts else "(@nil (list Z))"
 
 
-def coq_case(case, obs):
-    k = case.get("k")
-    if k in ("fit", "resize"):
-        exp = SX.cstr("".join(obs["r"][1]))     # only the text is an observable of the property
-        if k == "fit":
-            al = {1: "ALeft", 2: "ACenter", 3: "ARight"}[case["al"]]
-            return f"FitCase {_chunks_term(case['chunks'])} {SX.cnat(case['w'])} {al} {exp}"
-        return f"ResizeCase {_chunks_term(case['chunks'])} {SX.cnat(case['n'])} {exp}"
-    eq = EqIds()
-    missing_len = obs.get("missing_len", 33)
+def _cells_term(rec, eq):
+    cells = []
+    for jv in rec:
+        v = dec(jv)
+        cells.append(f"mkCell {SX.cstr(str(v))} {SX.cbool(is_right(v))} {SX.cbool(v is None)} {SX.cZ(eq(v))}")
+    return SX.clist(cells) if cells else "(@nil cell)"
+
+
+def _records_term(records, eq):
+    recs = [_cells_term(r, eq) for r in records]
+    return SX.clist(recs) if recs else "(@nil (list cell))"
+
+
+def _cols_term(cols):
+    cl = []
+    for c in cols:
+        mod = {None: "MNone", "full": "MFull", "val": "MVal", "name": "MName"}.get(c.get("mod"), "MBad")
+        b = col_bounds(c)
+        ws = "None" if b is None else f"(Some ({SX.cnat(b[0])}, {SX.cnat(b[1])}))"
+        cl.append(f"mkCol {SX.cnat(c['f'])} {mod} {SX.cbool(bool(c.get('brk')))} {ws}")
+    return SX.clist(cl) if cl else "(@nil col)"
+
+
+def _arg_limits_term(al):
+    return "None" if al is None else f"(Some ({_cnat_opt(al[0])}, {_cnat_opt(al[1])}))"
+
+
+def _table_term(case, eq, missing_len):
     fterms = []
     for f in case["fields"]:
         t = f.get("title")
@@ -407,41 +549,74 @@ def coq_case(case, obs):
             kk = f"(KEnum (mkEnum {ks} {ms}))"
         fterms.append(f"mkField {SX.cstr(f['name'])} {tt} {kk}")
     cols = case.get("cols")
-    if cols is None:
-        cterm = "None"
-    else:
-        cl = []
-        for c in cols:
-            mod = {None: "MNone", "full": "MFull", "val": "MVal", "name": "MName"}.get(c.get("mod"), "MBad")
-            b = col_bounds(c)
-            ws = "None" if b is None else f"(Some ({SX.cnat(b[0])}, {SX.cnat(b[1])}))"
-            cl.append(f"mkCol {SX.cnat(c['f'])} {mod} {SX.cbool(bool(c.get('brk')))} {ws}")
-        cterm = "(Some " + (SX.clist(cl) if cl else "(@nil col)") + ")"
-    recs = []
-    for r in case["records"]:
-        cells = []
-        for jv in r:
-            v = dec(jv)
-            cells.append(f"mkCell {SX.cstr(str(v))} {SX.cbool(is_right(v))} {SX.cbool(v is None)} {SX.cZ(eq(v))}")
-        recs.append(SX.clist(cells) if cells else "(@nil cell)")
-    rterm = SX.clist(recs) if recs else "(@nil (list cell))"
+    cterm = "None" if cols is None else "(Some " + _cols_term(cols) + ")"
+    rterm = _records_term(case["records"], eq)
     skip = case.get("skip") or []
     sterm = SX.clist(SX.cnat(i) for i in skip) if skip else "(@nil nat)"
     hd = case.get("header")
     ft = case.get("footer")
     fl = case.get("fmt_limits")
     flt = "None" if fl is None or fl == "*" else f"(Some ({SX.cnat(fl[0])}, {SX.cnat(fl[1])}))"
-    al = case.get("arg_limits")
-    alt = "None" if al is None else f"(Some ({_cnat_opt(al[0])}, {_cnat_opt(al[1])}))"
+    alt = _arg_limits_term(case.get("arg_limits"))
     fs = SX.clist(fterms) if fterms else "(@nil field)"
-    tbl = f"mkTable {fs} {cterm} {sterm} {rterm} {SX.copt(hd, SX.cstr)} {SX.copt(ft, SX.cstr)} {flt} {alt}"
-    r = obs["r"]
+    return f"mkTable {fs} {cterm} {sterm} {rterm} {SX.copt(hd, SX.cstr)} {SX.copt(ft, SX.cstr)} {flt} {alt}"
+
+
+def _res_term(r):
     if r[0] == "ok":
         lines = SX.clist(SX.cstr(l) for l in r[1]) if r[1] else "(@nil (list Z))"
-        exp = f"(Ok {lines})"
-    else:
-        exp = f"(@Err (list (list Z)) {SX.COQ_ERR[SX.ERR_CODES.get(r[1], SX.ERR_OTHER)]})"
-    return f"mkCase ({tbl}) {exp}"
+        return f"(Ok {lines})"
+    return f"(@Err (list (list Z)) {SX.COQ_ERR[SX.ERR_CODES.get(r[1], SX.ERR_OTHER)]})"
+
+
+def _hist_term(case, obs):
+    missing_len = obs.get("missing_len", 33)
+    eqs = [EqIds() for _ in case["tables"]]          # a clone shares the == classes of its source (enum keys)
+    tterms = [f"({_table_term(t, eqs[i], missing_len)})" for i, t in enumerate(case["tables"])]
+    ops = []
+    for op in case["ops"]:
+        k = op[0]
+        if k == "str":
+            ops.append(f"ORender {SX.cnat(op[1])}")
+        elif k == "open":
+            ops.append(f"OOpen {SX.cnat(op[1])}")
+        elif k == "next":
+            ops.append(f"ONext {SX.cnat(op[1])} {SX.cnat(op[2])}")
+        elif k == "setfmt":
+            cs, ls = op[2], op[3]
+            cst = "CKeep" if cs == "keep" else "CAll" if cs == "*" else f"(CCols {_cols_term(cs)})"
+            lst = "LKeep" if ls is None else "(LSet (None, None))" if ls == "*" else \
+                f"(LSet (Some {SX.cnat(ls[0])}, Some {SX.cnat(ls[1])}))"
+            ops.append(f"OSetFmt {SX.cnat(op[1])} {cst} {lst}")
+        elif k == "rmcols":
+            sk = SX.clist(SX.cnat(i) for i in op[2]) if op[2] else "(@nil nat)"
+            ops.append(f"ORemove {SX.cnat(op[1])} {sk}")
+        elif k == "clone":
+            eq = eqs[op[1]]
+            eqs.append(eq)
+            ops.append(f"OClone {SX.cnat(op[1])} {_records_term(op[2], eq)} {SX.copt(op[3], SX.cstr)} "
+                       f"{SX.copt(op[4], SX.cstr)} {_arg_limits_term(op[5])}")
+        else:
+            raise ValueError(f"unknown operation {op!r}")
+    tt = SX.clist(tterms) if tterms else "(@nil table)"
+    ot = SX.clist(ops) if ops else "(@nil op)"
+    evs = [_res_term(e) for e in obs["ev"]]
+    et = SX.clist(evs) if evs else "(@nil (res (list (list Z))))"
+    return f"HistCase {tt} {ot} {et}"
+
+
+def coq_case(case, obs):
+    k = case.get("k")
+    if k in ("fit", "resize"):
+        exp = SX.cstr("".join(obs["r"][1]))     # only the text is an observable of the property
+        if k == "fit":
+            al = {1: "ALeft", 2: "ACenter", 3: "ARight"}[case["al"]]
+            return f"FitCase {_chunks_term(case['chunks'])} {SX.cnat(case['w'])} {al} {exp}"
+        return f"ResizeCase {_chunks_term(case['chunks'])} {SX.cnat(case['n'])} {exp}"
+    if k == "hist":
+        return _hist_term(case, obs)
+    tbl = _table_term(case, EqIds(), obs.get("missing_len", 33))
+    return f"mkCase ({tbl}) {_res_term(obs['r'])}"
 
 
 def expected_sx(case, obs):
@@ -526,17 +701,26 @@ def enum_aliasing(case):
 def in_model(case, obs):
     if case.get("k") in ("fit", "resize"):
         return "r" in obs and obs["r"][0] == "ok"
+    if case.get("k") == "hist":
+        return "ev" in obs and hist_walk(case)[0] == "" and not hist_enum_aliasing(case)
     nf = len(case["fields"])
     return (not enum_aliasing(case)) and all(len(r) == nf for r in case["records"]) and "r" in obs
+
+
+def bad_modifier(case):
+    fields = case["fields"]
+    for c in all_cols(case):
+        m = c.get("mod")
+        if m is not None and (fields[c["f"]].get("enum") is None or m not in ENUM_MODS):
+            return True
+    return False
 
 
 def domain(case):
     """'' if the table must be printed, else the reason why the constructor / printer may reject it"""
     fields = case["fields"]
-    for c in all_cols(case):
-        m = c.get("mod")
-        if m is not None and (fields[c["f"]].get("enum") is None or m not in ENUM_MODS):
-            return "format modifier not supported by the field type"
+    if bad_modifier(case):
+        return "format modifier not supported by the field type"
     vis = visible_cols(case)
     if not vis:
         return "no visible column"
@@ -585,11 +769,228 @@ def _oracle_chunks(case, obs):
     return []
 
 
+# ------------------------------------------------------------------ histories: the table descriptions behind the calls
+def t_setfmt(t, cs, ls):
+    """description of table t after table.set_fmt(setfmt_string(t, cs, ls)); None if the fmt is rejected"""
+    new = dict(t)
+    if cs == "keep":
+        new["cols"] = [dict(c) for c in visible_cols(t)]
+    elif cs == "*":
+        new["cols"] = None
+    else:
+        new["cols"] = cs
+    new["skip"] = None
+    if ls is None:
+        a, b = effective_limits(t)
+    elif ls == "*":
+        a, b = None, None
+    else:
+        a, b = ls
+    new["fmt_limits"] = None
+    new["arg_limits"] = [a, b]
+    return None if bad_modifier(new) else new
+
+
+def t_rmcols(t, skip):
+    new = dict(t)
+    new["skip"] = sorted(set((t.get("skip") or []) + list(skip)))
+    return new
+
+
+def t_clone(t, recs, hd, ft, lim):
+    return {"fields": t["fields"], "cols": [dict(c) for c in visible_cols(t)], "skip": None, "fmt_limits": None,
+            "arg_limits": list(lim) if lim is not None else list(effective_limits(t)),
+            "records": recs, "header": hd, "footer": ft}
+
+
+def hist_walk(case):
+    """replay a history on the table descriptions.
+    -> (why, steps): why = '' or the reason the history is outside the modelled domain;
+    steps[k] (one per operation) = {"op", "table": description printed (str / first next), "ver": (table, version),
+    "gen": g, "first": this next starts the iterator, "drain": the iterator is read to its end, "expect_err": bool}"""
+    tabs = []
+    for t in case["tables"]:
+        if bad_modifier(t):
+            return "an initial table is rejected by the constructor", []
+        tabs.append(t)
+    ver = [0] * len(tabs)
+    printed = [False] * len(tabs)        # printed (or an iterator started) since the version began
+    gens = []                            # {"i", "started", "drained", "table", "ver"}
+    steps = []
+    for op in case["ops"]:
+        k = op[0]
+        st = {"op": op}
+        if k in ("str", "open", "setfmt", "rmcols", "clone"):
+            i = op[1]
+            if not (isinstance(i, int) and 0 <= i < len(tabs)):
+                return f"no table {i}", steps
+        if k == "str":
+            st["table"], st["ver"] = tabs[i], (i, ver[i])
+            printed[i] = True
+        elif k == "open":
+            gens.append({"i": i, "started": False, "drained": False, "table": None, "ver": None})
+        elif k == "next":
+            g, n = op[1], op[2]
+            if not (isinstance(g, int) and 0 <= g < len(gens)) or not (isinstance(n, int) and n >= 0):
+                return f"no iterator {g}", steps
+            G = gens[g]
+            st["gen"] = g
+            if n > 0 and not G["started"]:
+                G["started"], G["table"], G["ver"] = True, tabs[G["i"]], (G["i"], ver[G["i"]])
+                printed[G["i"]] = True
+                st["first"] = True
+            st["table"], st["ver"] = G["table"], G["ver"]
+            if n >= DRAIN and G["started"]:
+                G["drained"] = True
+                st["drain"] = True
+        elif k == "setfmt":
+            if any(G["i"] == i and G["started"] and not G["drained"] for G in gens):
+                return "set_fmt while a line iterator of the table is running", steps
+            new = t_setfmt(tabs[i], op[2], op[3])
+            if new is None:
+                st["expect_err"] = True
+            else:
+                tabs[i] = new
+                ver[i] += 1
+                printed[i] = False
+        elif k == "rmcols":
+            if printed[i]:
+                return "remove_columns after the table was printed (column widths are kept: not modelled)", steps
+            tabs[i] = t_rmcols(tabs[i], op[2])
+        elif k == "clone":
+            tabs.append(t_clone(tabs[i], op[2], op[3], op[4], op[5]))
+            ver.append(0)
+            printed.append(False)
+        else:
+            return f"unknown operation {k}", steps
+        steps.append(st)
+    return "", steps
+
+
+def hist_enum_aliasing(case):
+    """==-equal values with different str() meet in one enum type (shared by fields / tables / clones)"""
+    groups = {}
+    n = 0
+    srcs = list(range(len(case["tables"])))
+    tabs = list(case["tables"])
+    recs = [list(t["records"]) for t in tabs]
+    for op in case["ops"]:
+        if op[0] == "clone" and isinstance(op[1], int) and 0 <= op[1] < len(tabs):
+            recs[srcs[op[1]]] = recs[srcs[op[1]]] + list(op[2])
+            srcs.append(srcs[op[1]])
+            tabs.append(tabs[op[1]])
+            recs.append(None)
+    for ti, t in enumerate(case["tables"]):
+        for fi, f in enumerate(t["fields"]):
+            if f.get("enum") is None:
+                continue
+            eid = f.get("enum_id")
+            if eid is None:
+                n += 1
+                eid = ("own", n)
+            g = groups.setdefault(eid, [])
+            g += [dec(k) for k, _, _ in f["enum"]["keys"]] + [dec(r[fi]) for r in recs[ti] if fi < len(r)]
+    for vals in groups.values():
+        seen = {}
+        for v in vals:
+            t = (type(v).__name__, str(v))
+            if seen.setdefault(_key(v), t) != t:
+                return True
+    return False
+
+
+def _oracle_hist(case, obs):
+    why, steps = hist_walk(case)
+    if why:
+        return []
+    ev = obs.get("ev")
+    nt = len(case["tables"])
+    if not isinstance(ev, list) or len(ev) != nt + len(steps):
+        return [("history-events", "the number of recorded events differs from the number of calls")]
+    out = []
+    for i in range(nt):
+        if ev[i][0] != "ok":
+            out.append(("raises", f"constructing table {i} raised {ev[i][1]}"))
+    if out:
+        return out
+    if obs.get("lines_changed_later"):
+        out.append(("yielded-line-changed-later", f"{obs['lines_changed_later']} line(s) delivered by a line iterator show another "
+                    "text at the end of the history than when they were delivered (the line objects are shared / reused)"))
+    whole = {}            # (table, version) -> (lines, where) : a complete rendering
+    parts = {}            # iterator -> lines delivered so far
+    gver = {}
+    gtab = {}
+    done = set()
+
+    def complete(verk, lines, tdesc, where):
+        for sig, msg in oracle({k: v for k, v in tdesc.items() if k != "k"}, {"r": ["ok", lines]}):
+            out.append((sig, f"{where}: {msg}"))
+        if verk in whole and whole[verk][0] != lines:
+            a, wa = whole[verk]
+            j = next((x for x in range(min(len(a), len(lines))) if a[x] != lines[x]), min(len(a), len(lines)))
+            out.append(("history-dependent-rendering",
+                        f"table {verk[0]} printed twice without any change to it: {wa} and {where} differ at line {j}: "
+                        f"{a[j] if j < len(a) else None!r} / {lines[j] if j < len(lines) else None!r}"))
+        whole.setdefault(verk, (lines, where))
+
+    for n, st in enumerate(steps):
+        e = ev[nt + n]
+        op = st["op"]
+        where = f"call {n} {op[0]}({op[1]})"
+        if op[0] == "str":
+            if e[0] != "ok":
+                if not (domain(st["table"]) or _has_nl(st["table"])):
+                    out.append(("raises", f"{where}: printing the table raised {e[1]}"))
+                continue
+            complete(st["ver"], e[1], st["table"], where)
+        elif op[0] == "next":
+            g = st["gen"]
+            if e[0] != "ok":
+                if st.get("table") is not None and not (domain(st["table"]) or _has_nl(st["table"])):
+                    out.append(("raises", f"{where}: the line iterator raised {e[1]}"))
+                done.add(g)
+                continue
+            if st.get("table") is None:
+                continue
+            parts.setdefault(g, [])
+            parts[g] = parts[g] + e[1]
+            gver[g], gtab[g] = st["ver"], st["table"]
+            if st.get("drain") and g not in done:
+                done.add(g)
+                complete(st["ver"], parts[g], st["table"], f"iterator {g} (read to its end at call {n})")
+        elif op[0] == "setfmt":
+            if st.get("expect_err"):
+                continue
+            if e[0] != "ok":
+                out.append(("raises", f"{where}: set_fmt (columns {op[2]!r}, limits {op[3]!r}) raised {e[1]}"))
+        elif e[0] != "ok":
+            out.append(("raises", f"{where} raised {e[1]}"))
+    # lines of iterators that were not read to their end: a prefix of the table's text
+    for g, lines in parts.items():
+        if g in done or gver[g] not in whole:
+            continue
+        a = whole[gver[g]][0]
+        if a[:len(lines)] != lines:
+            j = next((x for x in range(min(len(a), len(lines))) if a[x] != lines[x]), min(len(a), len(lines)))
+            out.append(("history-dependent-rendering",
+                        f"iterator {g} over table {gver[g][0]}: line {j} is {lines[j] if j < len(lines) else None!r}, "
+                        f"the table printed as a whole has {a[j] if j < len(a) else None!r}"))
+    seen = set()
+    uniq = []
+    for sig, msg in out:
+        if sig not in seen:
+            seen.add(sig)
+            uniq.append((sig, msg))
+    return uniq
+
+
 def oracle(case, obs):
     if "__hang__" in obs:
         return [("hang", "the call did not return")]
     if case.get("k") in ("fit", "resize"):
         return _oracle_chunks(case, obs)
+    if case.get("k") == "hist":
+        return _oracle_hist(case, obs)
     r = obs["r"]
     why = domain(case)
     if r[0] != "ok":
@@ -815,7 +1216,8 @@ def _rand_enum(rng):
     return e, vals
 
 
-def gen_table(rng, focus):
+def gen_table(rng, focus, shared=None):
+    """shared: [(enum_id, enum, values)] enum types that several fields / tables of a history may use"""
     nf = rng.choice([1, 1, 2, 2, 3, 3, 4])
     fields = []
     fvals = []
@@ -823,7 +1225,10 @@ def gen_table(rng, focus):
         f = {"name": f"f{i}", "title": _rand_title(rng), "enum": None}
         vals = None
         if rng.random() < (0.6 if focus == "enum" else 0.2):
-            f["enum"], vals = _rand_enum(rng)
+            if shared and rng.random() < 0.75:
+                f["enum_id"], f["enum"], vals = rng.choice(shared)
+            else:
+                f["enum"], vals = _rand_enum(rng)
         elif rng.random() < 0.4:
             # low-cardinality column (break-by becomes interesting), may mix ==-equal values
             vals = rng.sample([0, 1, True, 1.0, False, None, "a", "b", "", 2, "x|y"], rng.randint(1, 4))
@@ -900,6 +1305,165 @@ def gen_table(rng, focus):
     return case
 
 
+# ------------------------------------------------------------------ generator of histories
+def _rand_cols(rng, fields, focus):
+    cols = []
+    for _ in range(rng.choice([1, 1, 2, 2, 3, 4])):
+        fi = rng.randrange(len(fields))
+        mod = None
+        if fields[fi]["enum"] is not None and rng.random() < 0.7:
+            mod = rng.choice(ENUM_MODS)
+        if rng.random() < 0.03:
+            mod = rng.choice(["bad", "val"])
+        cols.append({"f": fi, "mod": mod, "brk": rng.random() < 0.3, "w": _rand_width(rng, focus)})
+    return cols
+
+
+def _field_values(rng, t, fi):
+    """values a further record may hold in field fi of table description t"""
+    f = t["fields"][fi]
+    seen = [r[fi] for r in t["records"]]
+    if f.get("enum") is not None:
+        pool = [k for k, _, _ in f["enum"]["keys"]] + [None] + seen
+        return pool
+    return seen + [_rand_value(rng) for _ in range(2)]
+
+
+def gen_hist(rng):
+    import copy
+    shared = []
+    for eid in range(rng.choice([0, 1, 1, 2])):
+        e, vals = _rand_enum(rng)
+        shared.append((eid, e, vals))
+    focuses = ["break", "break", "limits", "limits", "tiny", "narrow", "enum", "plain"]
+    tables = []
+    for _ in range(rng.choice([1, 2, 2, 2, 3])):
+        t = gen_table(rng, rng.choice(focuses + (["enum"] * 4 if shared else [])), shared)
+        for c in all_cols(t):
+            if c.get("mod") is not None and (t["fields"][c["f"]].get("enum") is None or c["mod"] not in ENUM_MODS):
+                c["mod"] = None
+        if t.get("cols") is not None and not t["cols"]:
+            t["cols"] = None
+        tables.append(t)
+    if len(tables) < 3 and rng.random() < 0.35:
+        # a sibling: the same fields (and shared enum objects), other columns / widths / limits / records
+        src = rng.choice(tables)
+        for i, f in enumerate(src["fields"]):
+            if f.get("enum") is not None and f.get("enum_id") is None:
+                f["enum_id"] = 100 + 10 * tables.index(src) + i      # shared with the copy
+        t = copy.deepcopy(src)
+        cols = [c for c in _rand_cols(rng, t["fields"], "narrow")
+                if c["mod"] is None or (c["mod"] in ENUM_MODS and t["fields"][c["f"]].get("enum") is not None)]
+        t["cols"] = cols or None
+        t["skip"] = None
+        if rng.random() < 0.5:
+            rng.shuffle(t["records"])
+            t["records"] = t["records"][:rng.randint(0, len(t["records"]))]
+        if rng.random() < 0.5:
+            t["fmt_limits"], t["arg_limits"] = [rng.choice([0, 1, 2]), rng.choice([0, 1, 2])], None
+        tables.append(t)
+    style = rng.choice(["interleave", "interleave", "sequence", "mixed"])
+    tabs = list(tables)
+    printed = [False] * len(tabs)
+    gens = []
+    ops = []
+
+    def mode():
+        return "nc" if rng.random() < 0.85 else "c"
+
+    def do_open(i):
+        ops.append(["open", i, mode()])
+        gens.append({"i": i, "started": False, "drained": False})
+
+    def busy(i):
+        return any(G["i"] == i and G["started"] and not G["drained"] for G in gens)
+
+    if style == "interleave":
+        order = list(range(len(tabs)))
+        if rng.random() < 0.4:
+            order.append(rng.randrange(len(tabs)))
+        rng.shuffle(order)
+        for i in order:
+            do_open(i)
+    w = {"interleave": {"str": 1, "open": 0.3, "next": 8, "setfmt": 0.4, "clone": 0.3, "rmcols": 0.2},
+         "sequence": {"str": 4, "open": 0.3, "next": 0.5, "setfmt": 2.5, "clone": 1, "rmcols": 0.6},
+         "mixed": {"str": 2, "open": 1, "next": 4, "setfmt": 1.5, "clone": 0.7, "rmcols": 0.4}}[style]
+    for _ in range(rng.randint(6, 16) if style == "interleave" else rng.randint(4, 10)):
+        acts = ["str", "open"]
+        if any(not G["drained"] for G in gens):
+            acts.append("next")
+        if any(not busy(i) for i in range(len(tabs))):
+            acts.append("setfmt")
+        if len(tabs) < 4:
+            acts.append("clone")
+        if any(not p for p in printed):
+            acts.append("rmcols")
+        a = rng.choices(acts, weights=[w[x] for x in acts])[0]
+        if a == "str":
+            i = rng.randrange(len(tabs))
+            ops.append(["str", i, mode()])
+            printed[i] = True
+        elif a == "open":
+            do_open(rng.randrange(len(tabs)))
+        elif a == "next":
+            g = rng.choice([j for j, G in enumerate(gens) if not G["drained"]])
+            k = rng.choice([1, 1, 1, 2, 2, 3, 4, 6, DRAIN])
+            ops.append(["next", g, k])
+            gens[g]["started"] = True
+            printed[gens[g]["i"]] = True
+            if k >= DRAIN:
+                gens[g]["drained"] = True
+        elif a == "setfmt":
+            i = rng.choice([j for j in range(len(tabs)) if not busy(j)])
+            t = tabs[i]
+            k = rng.random()
+            if k < 0.25:
+                cs = "keep"
+            elif k < 0.4:
+                cs = "*"
+            elif k < 0.65:
+                # the same columns, other widths (usually narrower)
+                cs = [dict(c, w=rng.choice([[0], [1], [2], [3], [1, 4], None])) for c in visible_cols(t)] or "*"
+            else:
+                cs = _rand_cols(rng, t["fields"], rng.choice(["narrow", "plain"]))
+            k = rng.random()
+            ls = None if k < 0.4 else "*" if k < 0.55 else [rng.choice([0, 0, 1, 1, 2, 3]), rng.choice([0, 0, 1, 1, 2, 3])]
+            ops.append(["setfmt", i, cs, ls])
+            new = t_setfmt(t, cs, ls)
+            if new is not None:
+                tabs[i] = new
+                printed[i] = False
+        elif a == "clone":
+            i = rng.randrange(len(tabs))
+            t = tabs[i]
+            nf = len(t["fields"])
+            pools = [_field_values(rng, t, fi) for fi in range(nf)]
+            recs = [[rng.choice(pools[fi]) if pools[fi] else _rand_value(rng) for fi in range(nf)]
+                    for _ in range(rng.choice([0, 1, 2, 3, 5, 8]))]
+            lim = rng.choice([None, None, [None, None], [1, 1], [0, 2], [2, 0], [0, 0]])
+            hd = rng.choice([None, "", "clone", "a clone with a long header text"])
+            ft = rng.choice([None, "", "end of clone"])
+            ops.append(["clone", i, recs, hd, ft, lim])
+            tabs.append(t_clone(t, recs, hd, ft, lim))
+            printed.append(False)
+        elif a == "rmcols":
+            i = rng.choice([j for j, p in enumerate(printed) if not p])
+            sk = sorted(rng.sample(range(len(tabs[i]["fields"])), 1))
+            if all(c["f"] in sk for c in visible_cols(tabs[i])) and rng.random() < 0.8:
+                continue                      # (mostly) keep a column
+            ops.append(["rmcols", i, sk])
+            tabs[i] = t_rmcols(tabs[i], sk)
+    # read every iterator to its end, then print some tables once more
+    rest = [j for j, G in enumerate(gens) if not G["drained"]]
+    rng.shuffle(rest)
+    for g in rest:
+        ops.append(["next", g, DRAIN])
+    for i in range(len(tabs)):
+        if rng.random() < 0.5:
+            ops.append(["str", i, "nc"])
+    return {"k": "hist", "tables": tables, "ops": ops}
+
+
 CHUNK_POOL = ["", "a", "ab", "abc", "abcd", " ", "  ", "...", "|", "é", "日本", "x" * 7, "0123456789"]
 
 
@@ -923,7 +1487,15 @@ def gen_cases(rng, tier):
         cases.append(gen_table(rng, "big"))
     for i in range(6000 if big else 500):
         cases.append(gen_chunk_case(rng))
-    return cases
+    hist = [gen_hist(rng) for i in range(6000 if big else 400)]
+    # histories are the heaviest cases for the model evaluation: spread them evenly over the Coq shards
+    step = max(1, len(cases) // max(1, len(hist)))
+    out = []
+    for i, c in enumerate(cases):
+        out.append(c)
+        if i % step == step - 1 and hist:
+            out.append(hist.pop())
+    return out + hist
 
 
 def search_cases(rng, tier):
@@ -933,12 +1505,37 @@ def search_cases(rng, tier):
         cases.append(gen_table(rng, focuses[i % len(focuses)]))
     for i in range(1500):
         cases.append(gen_chunk_case(rng))
+    for i in range(1500):
+        cases.append(gen_hist(rng))
     return cases
+
+
+def hist_tags(case):
+    tags = set()
+    started = {}
+    gens = []
+    for op in case["ops"]:
+        if op[0] == "open":
+            gens.append(op[1])
+        elif op[0] == "next":
+            if op[2] > 0:
+                started[op[1]] = op[2] < DRAIN
+            live = {gens[g] for g, v in started.items() if v and g < len(gens)}
+            tags.add("interleaved" if len(live) >= 2 else "iter")
+        elif op[0] in ("setfmt", "clone", "rmcols"):
+            tags.add(op[0])
+        if op[0] in ("str", "open") and op[2] == "c":
+            tags.add("colour")
+    if any(f.get("enum_id") is not None for t in case["tables"] for f in t["fields"]):
+        tags.add("shared-enum")
+    return sorted(tags)
 
 
 def kind(case):
     if case.get("k") in ("fit", "resize"):
         return case["k"]
+    if case.get("k") == "hist":
+        return "hist:" + "+".join(hist_tags(case))
     tags = []
     if any(f.get("enum") is not None for f in case["fields"]):
         tags.append("enum")
@@ -954,12 +1551,19 @@ def kind(case):
 def nontrivial(case, obs):
     if case.get("k") in ("fit", "resize"):
         return "r" in obs and obs["r"][0] == "ok" and len(case["chunks"]) >= 1
+    if case.get("k") == "hist":
+        # at least two calls returned lines of a table that has records
+        return "ev" in obs and sum(1 for e in obs["ev"] if e[0] == "ok" and len(e[1]) >= 4) >= 2 and \
+            any(t["records"] for t in case["tables"])
     return "r" in obs and obs["r"][0] == "ok" and len(case["records"]) >= 1
 
 
 def outcome(case, obs):
     if "__hang__" in obs:
         return "hang"
+    if case.get("k") == "hist":
+        errs = sorted({e[1] for e in obs["ev"] if e[0] != "ok"})
+        return "hist:ok" if not errs else "hist:" + "+".join(errs)
     r = obs["r"]
     if r[0] != "ok":
         return r[1]
@@ -977,6 +1581,36 @@ def shrink_candidates(case):
             c = copy.deepcopy(case)
             del c["chunks"][i]
             yield c
+        return
+    if case.get("k") == "hist":
+        ops = case["ops"]
+        # shorter histories first: drop the tail, then single calls that shift no index
+        for n in (len(ops) // 2, len(ops) - 1):
+            if 0 < n < len(ops):
+                c = copy.deepcopy(case)
+                c["ops"] = ops[:n]
+                yield c
+        for j in range(len(ops) - 1, -1, -1):
+            if ops[j][0] in ("str", "next", "setfmt", "rmcols"):
+                c = copy.deepcopy(case)
+                del c["ops"][j]
+                if hist_walk(c)[0] == "":
+                    yield c
+        used = {op[1] for op in ops if op[0] != "next"}
+        if len(case["tables"]) > 1 and (len(case["tables"]) - 1) not in used and not any(op[0] == "clone" for op in ops):
+            c = copy.deepcopy(case)
+            del c["tables"][-1]
+            yield c
+        for ti, t in enumerate(case["tables"]):
+            for i in range(len(t["records"]) - 1, -1, -1):
+                c = copy.deepcopy(case)
+                del c["tables"][ti]["records"][i]
+                yield c
+        for j, op in enumerate(ops):
+            if op[0] == "next" and 1 < op[2] < DRAIN:
+                c = copy.deepcopy(case)
+                c["ops"][j][2] = op[2] - 1
+                yield c
         return
     n = len(case["records"])
     for i in range(n):
